@@ -32,6 +32,9 @@ func c04Alphabet() []fsx.Op {
 		fsx.Op{K: "KEEPONLY", H: "root/d", N: "m031"},
 		fsx.Op{K: "KEEPONLY", H: "root/d", N: "m005"},
 		fsx.Op{K: "KEEPONLY", H: "root/d", N: "m039"},
+		// refused after the source name was taken out (the target "directory" is a symbolic link): whatever the request
+		// changed in memory must be gone too, or the next CREATE of that name writes a second entry
+		fsx.Op{K: "RENAME", H: "root", N: "a", H2: "root/s", N2: "x"},
 	)
 	return al
 }
